@@ -17,6 +17,9 @@ Record block_pre := {
                                        force by the harness's ghost state: (validator the accepted
                                        submission was FOR, its indices), the latest per validator *)
   bp_thr : list (option Z);         (* the keeper's GetZkpThreshold per item; None = it panicked *)
+  bp_gthr : list (option Z);        (* ghost: the protocol rule ceil(rf * shards / #bonded) clamped to 1..shards,
+                                       computed by the harness from x/staking's bonded set; [it_asg] is the real
+                                       ShardIndicesForValidator at THIS threshold; None = nobody bonded *)
   bp_stored : list (list proof);    (* per item: the records as stored, Sender address as harness id *)
   bp_fc : list (Z * Z);             (* fault counters of bp_ids *)
   bp_cc : Z;                        (* challenge counter *)
@@ -37,7 +40,10 @@ Record block_obs := {
 Inductive c09_case :=
 | CBlock (p : block_pre) (o : block_obs)
 | COrder (finals : list (list Z))   (* per schedule: counters of all operators, challenge counter, verdict per logical item *)
-| CSubmit (n : Z) (indices : list Z) (accepted : bool).  (* one MsgSubmitValidityProof on an item with n shards *)
+| CSubmit (n : Z) (indices : list Z) (accepted : bool)   (* one MsgSubmitValidityProof on an item with n shards *)
+| CQuery (qthr gthr : option Z) (idx : list (list Z * list Z)).
+    (* Query/ZkpProofThreshold and the ghost threshold; per bonded validator the answer of
+       Query/ValidatorShardIndices and the real shuffle at the ghost threshold *)
 
 Definition lookup (l : list (Z * Z)) (k : Z) : Z :=
   match find (fun e => fst e =? k) l with Some e => snd e | None => 0 end.
@@ -93,6 +99,8 @@ Definition predict (fx : fixes) (p : block_pre) :=
 Definition block_corr_with (fx : fixes) (p : block_pre) (o : block_obs) : bool :=
   nodupb (bp_ids p) &&
   (thr_ok (bp_rf p) (Z.of_nat (length (bp_active p))) (bp_items p) (bp_thr p) &&
+   (* the harness's ghost threshold is the model's (its arithmetic is recomputed here) *)
+   thr_ok (bp_rf p) (Z.of_nat (length (bp_active p))) (bp_items p) (bp_gthr p) &&
    stored_ok (bp_items p) (bp_stored p)) &&
   match predict fx p with
   | None => bo_panic o
@@ -184,12 +192,27 @@ Definition mon_order (finals : list (list Z)) : bool :=
 Definition mon_submit (n : Z) (indices : list Z) (accepted : bool) : bool :=
   if accepted then forallb (fun i => (0 <=? i) && (i <? n)) indices else true.
 
+(* 6: the number of shards a validator must prove is the protocol rule over the BONDED validators:
+      the threshold the tally uses, the one Query/ZkpProofThreshold answers and the indices
+      Query/ValidatorShardIndices answers all agree with it *)
+Fixpoint opts_eqb (a b : list (option Z)) : bool :=
+  match a, b with
+  | [], [] => true
+  | x :: a', y :: b' => opt_eqb x y && opts_eqb a' b'
+  | _, _ => false
+  end.
+Definition mon_threshold (p : block_pre) : bool := opts_eqb (bp_thr p) (bp_gthr p).
+Definition mon_query (qthr gthr : option Z) (idx : list (list Z * list Z)) : bool :=
+  opt_eqb qthr gthr && forallb (fun '(q, g) => zlist_eqb q g) idx.
+
 Definition c09_check (c : c09_case) : list Z :=
   match c with
   | CBlock p o =>
-      flag 0 (block_corr p o) ++ flag 1 (mon_verdict p o) ++ flag 2 (mon_faults p o) ++ flag 3 (mon_slash p o)
+      flag 0 (block_corr p o) ++ flag 1 (mon_verdict p o) ++ flag 2 (mon_faults p o) ++ flag 3 (mon_slash p o) ++
+      flag 6 (mon_threshold p)
   | COrder f => flag 4 (mon_order f)
   | CSubmit n idx acc => flag 5 (mon_submit n idx acc)
+  | CQuery q g idx => flag 6 (mon_query q g idx)
   end.
 
 Definition run := run_cases c09_check.
@@ -200,5 +223,6 @@ Definition c09_check_as_found (c : c09_case) : list Z :=
   | CBlock p o => flag 0 (block_corr_with as_found p o)
   | COrder f => []
   | CSubmit _ _ _ => []
+  | CQuery _ _ _ => []
   end.
 Definition run_as_found := run_cases c09_check_as_found.
